@@ -61,7 +61,9 @@ class StimCircuitFactoryManager(IStimCircuitFactory):
         result_circuit: stim.Circuit = stim.Circuit()
         process_circuit: ICircuitCompositeOperation = circuit
         if isinstance(circuit, IDeclarativeCircuit):
+            # The repetitions of the exported circuit itself are applied here, those of sub-circuits below
             process_circuit = circuit.circuit_structure
+            return self.construct(process_circuit) * process_circuit.nr_of_repetitions
 
         for operation_node in process_circuit._circuit_graph.get_node_iterator():
             operation: ICircuitOperation = operation_node.operation
